@@ -211,9 +211,6 @@ Definition topology_of_env (e : env) : option topology :=
   | _ => None
   end.
 
-Definition obind {A B} (o : option A) (k : A -> option B) : option B :=
-  match o with Some x => k x | None => None end.
-Notation "x <- o ;; k" := (obind o (fun x => k)) (at level 61, o at next level, right associativity).
 
 Definition mesh_of_env (e : env) : option mesh :=
   t <- topology_of_env e ;;
